@@ -82,6 +82,7 @@ class Runner(RuleBasedStateMachine):
         pkg = package(self.backend)
         self.jail = Jail(pkg.files, self.backend, pkg.info.main_script, calib_cache=self.calib)
         os.makedirs(self.jail.path("/results2"), exist_ok=True)
+        os.makedirs(self.jail.path("/work/relout"), exist_ok=True)  # a destination given relative to the calling directory (/work)
         self.state = "fresh"
         self.history: List[dict] = []
         self.tokens_at: Dict[str, Optional[str]] = {}
@@ -89,8 +90,8 @@ class Runner(RuleBasedStateMachine):
 
     @rule(
         flags=st.sampled_from(["", "", "-c", "-r", "-r", "-c -r", "-x", "-d", "-c extra", "-r extra", "-o", "--help", "-cr"]),
-        dfile=st.sampled_from([None, None, "/data/a.root", "root://host//b.root", "/data/with space.root"]),
-        odir=st.sampled_from([None, None, "/results2", "/results/renamed.root", "/out2"]),
+        dfile=st.sampled_from([None, None, "/data/a.root", "root://host//b.root", "/data/with space.root", "reldata/c.root"]),
+        odir=st.sampled_from([None, None, "/results2", "/results/renamed.root", "/out2", "relout"]),
         fault=st.sampled_from([None, None, None, "setup", "build0", "build1", "job", "sudo", "convert", "copy"]),
     )
     def invoke_rule(self, flags, dfile, odir, fault):
@@ -116,6 +117,8 @@ class Runner(RuleBasedStateMachine):
         tools_run = [l.split(" ")[0] for l in log if not l.startswith(("JOB", "FAULT"))]
         jobs = [l for l in log if l.startswith("JOB ")]
         dest = odir or "/results"
+        if not dest.startswith("/"):
+            dest = "/work/" + dest  # relative to the directory runner.sh was called from
         dest_file = dest if dest.endswith(".root") else dest + "/ANALYSIS.root"
         content = self.jail.read(dest_file)
         mine = content is not None and f"TOKEN {n} " in content
@@ -172,7 +175,7 @@ class Runner(RuleBasedStateMachine):
             if rc == 0 and run:
                 if not mine:
                     viol("output-not-delivered", f"exit 0 but {dest_file} does not hold this run's output (content {content!r})")
-                want_files = (dfile + ",") if dfile is not None else "/data/shipped.root,"
+                want_files = ((dfile if (dfile.startswith("/") or "://" in dfile) else "/work/" + dfile) + ",") if dfile is not None else "/data/shipped.root,"
                 if not jobs or not jobs[-1].endswith(" " + want_files):
                     viol("wrong-input", f"the job read {jobs}, expected exactly {want_files!r}")
                 if be != "atlas" and content is not None and not content.startswith("CONVERTED "):
@@ -195,8 +198,8 @@ class Runner(RuleBasedStateMachine):
 
     @precondition(lambda self: self.state == "built")
     @rule(
-        dfile=st.sampled_from([None, "/data/a.root", "/data/b.root", "root://host//b.root"]),
-        odir=st.sampled_from([None, "/results2", "/results/renamed.root", "/out2"]),
+        dfile=st.sampled_from([None, "/data/a.root", "/data/b.root", "root://host//b.root", "reldata/c.root"]),
+        odir=st.sampled_from([None, "/results2", "/results/renamed.root", "/out2", "relout"]),
         fault=st.sampled_from([None, "job", "job", "convert", "copy", "sudo", "setup", None]),
     )
     def rerun(self, dfile, odir, fault):
